@@ -121,8 +121,14 @@ func corpus() []corpusFile {
 		{"ply-le-generic", "ply", true, plyGeneric(fileformats.PLYFormatBinaryLittle, true, false)},
 		{"ply-be-generic-intlen", "ply", true, plyGeneric(fileformats.PLYFormatBinaryBig, false, true)},
 		{"csv", "csv", false, csv},
+		// a valid coloured PLY with one more element whose properties reuse the names x and red with other types
+		{"ply-ascii-extra-element", "ply", false, []byte(plyExtra)},
 	}
 }
+
+const plyExtra = "ply\nformat ascii 1.0\nelement vertex 3\nproperty float x\nproperty float y\nproperty float z\nproperty uchar red\nproperty uchar green\nproperty uchar blue\n" +
+	"element edge 1\nproperty int vertex1\nproperty double x\nproperty short red\nelement face 1\nproperty list uchar int vertex_index\nend_header\n" +
+	"0 0 0 1 2 3\n1 0 0 1 2 4\n0 1 0.5 1 2 5\n0 0.25 7\n3 0 1 2\n"
 
 var byteAlphabet = []byte{0x00, 0xFF, 0x80, '-', '9', ' ', '\n', 'e', '.'}
 var tokenAlphabet = []string{"-1", "0", "1", "2", "255", "256", "2147483647", "2147483648", "4294967295", "9223372036854775807", "1e999", "nan", "", "x", "-0", "1000000"}
@@ -621,7 +627,7 @@ func main() {
 		r.Sample("replay")
 		r.Finish()
 	}
-	r.Rule("every prefix, every byte x {00,FF,80,'-','9',' ','\\n','e','.',bit-flip}, every numeric token x 16 boundary values, every 4-byte window x 20 patterns (binary files; boundary values and counts that wrap a 32-bit size computation), every line deleted or duplicated, every header/text word x 41 keywords and type names, and in the thorough tier every pair of tokens x 8x8 values, of each of 15 minimal valid files (binary/ASCII STL, OFF, PLY ascii/little/big endian with lists and a zero-count element, segment CSV), fed to all 8 decoder entry points; truncations and token/word corruptions (thorough: every case) are delivered a second time through a reader that returns one byte per Read, and truncations, tokens and 4-byte windows (thorough: every case) a third time from a *bytes.Reader (Len/Seek/ReadAt visible to the decoder). " +
+	r.Rule("every prefix, every byte x {00,FF,80,'-','9',' ','\\n','e','.',bit-flip}, every numeric token x 16 boundary values, every 4-byte window x 20 patterns (binary files; boundary values and counts that wrap a 32-bit size computation), every line deleted or duplicated, every header/text word x 41 keywords and type names, and in the thorough tier every pair of tokens x 8x8 values, of each of 16 minimal valid files (binary/ASCII STL, OFF, PLY ascii/little/big endian with lists and a zero-count element, segment CSV), fed to all 8 decoder entry points; truncations and token/word corruptions (thorough: every case) are delivered a second time through a reader that returns one byte per Read, and truncations, tokens and 4-byte windows (thorough: every case) a third time from a *bytes.Reader (Len/Seek/ReadAt visible to the decoder). " +
 		"non-trivial = mutated files whose header the format's reader still accepts, i.e. the fault landed in a field the decoder trusts; counted once per case")
 	r.Assume("allocation bound 1 MiB + 4 KiB per input byte (out of proportion = beyond any constant-factor expansion of the input); zero-progress bound 200 reads after end of input; 20 s watchdog per decoder call")
 	total := countCases(files, r.Thorough())
